@@ -1,6 +1,7 @@
 SPECIFICATION Spec
 CONSTANTS
   OAuthEscapes = FALSE
+  SpecRouteEscaped = FALSE
   MaxSegs = 1
   MaxPayload = 3
   SegIds = {"docs"}
